@@ -146,6 +146,35 @@ func newE2(params json.RawMessage) *e2Machine {
 		m.cls = append(m.cls, c)
 	}
 	synctest.Wait()
+	if p.Prefix == "ahead" {
+		// client 0 has created every key and pushed three operations on it; nobody else has opened anything: a late
+		// entrant's first sync brings a log whose clock is ahead of its own
+		c := m.cls[0]
+		var pre []pt.Action
+		for _, k := range p.Keys {
+			pre = append(pre, pt.Action{Op: "open", R: 0, T: k, K: "soc"})
+		}
+		pre = append(pre, pt.Action{Op: "sync", R: 0})
+		for _, k := range p.Keys {
+			switch c.typ {
+			case "map":
+				pre = append(pre, pt.Action{Op: "put", R: 0, K: "a", V: "p", T: k + "|"}, pt.Action{Op: "put", R: 0, K: "b", V: "p", T: k + "|"}, pt.Action{Op: "put", R: 0, K: "a", V: "p", T: k + "|"})
+			case "list":
+				pre = append(pre, pt.Action{Op: "ins1", R: 0, P: 0, V: "p", T: k + "|"}, pt.Action{Op: "ins1", R: 0, P: 1, V: "p", T: k + "|"}, pt.Action{Op: "ins1", R: 0, P: 2, V: "p", T: k + "|"})
+			case "doc":
+				pre = append(pre, pt.Action{Op: "dput", R: 0, K: "a", V: "a", T: k + "|"}, pt.Action{Op: "dins", R: 0, P: 2, N: 1, V: "p", T: k + "|a"}, pt.Action{Op: "dins", R: 0, P: 3, N: 1, V: "p", T: k + "|a"})
+			default:
+				pre = append(pre, pt.Action{Op: "inc", R: 0, P: 1, T: k + "|"}, pt.Action{Op: "inc", R: 0, P: 1, T: k + "|"}, pt.Action{Op: "inc", R: 0, P: 1, T: k + "|"})
+			}
+		}
+		pre = append(pre, pt.Action{Op: "sync", R: 0})
+		for _, a := range pre {
+			if v := m.Apply(a); v != nil {
+				m.fatal = v
+				return m
+			}
+		}
+	}
 	if p.Prefix == "joined" {
 		for _, c := range m.cls {
 			for _, k := range p.Keys {
